@@ -17,6 +17,8 @@ from gscrib.printrun.device import Device, READ_EOF
 
 PROP = "C17"
 LEVEL = "fault_enumeration"
+TECHNIQUE = 'reference line splitter vs Device.readline() on a scripted socket file/selector; exhaustive enumeration of streams x fragmentations x gap behaviours; real loopback TCP peer'
+LEVEL_TEXT = 'Complete for all streams over {a,LF,CR} up to length 5 (quick) / 7 (thorough) with every fragmentation and 3 behaviours per gap; random 4 KiB streams and real TCP in addition.'
 RULE = ("(a) exhaustive: every byte stream over {a, LF, CR} up to length N, every fragmentation into "
         "chunks, and at every gap (before each chunk and before end-of-stream) one of {nothing, 'no data "
         "yet' + select timeout, 'no data yet' + select ready}; (b) random streams up to 4 KiB, chunk sizes "
